@@ -369,8 +369,15 @@ func (a *c05) checkComparator(s *c05Sorter) {
 
 // wakeCase: the select case receiving from the timer channel.
 func (a *c05) wakeCase() (*ssa.BasicBlock, *ssa.Function) {
+	b, fn, _ := a.wakeCaseChan()
+	return b, fn
+}
+
+// wakeCaseChan: the wake-up case, its function and the channel value it receives from.
+func (a *c05) wakeCaseChan() (*ssa.BasicBlock, *ssa.Function, ssa.Value) {
 	var wake *ssa.BasicBlock
 	var wakeFn *ssa.Function
+	var wakeCh ssa.Value
 	for _, fn := range a.funcs {
 		if !a.schedOnly[fn] {
 			continue
@@ -389,12 +396,12 @@ func (a *c05) wakeCase() (*ssa.BasicBlock, *ssa.Function) {
 					continue
 				}
 				if ch, ok := st.Chan.Type().Underlying().(*types.Chan); ok && namedKey(ch.Elem()) == "time.Time" && a.timerChan(st.Chan, map[ssa.Value]bool{}) {
-					wake, wakeFn = si.Cases[i].Body, fn
+					wake, wakeFn, wakeCh = si.Cases[i].Body, fn, st.Chan
 				}
 			}
 		})
 	}
-	return wake, wakeFn
+	return wake, wakeFn, wakeCh
 }
 
 // isClockReading: in takes a reading of the clock (or receives a timer's value).
@@ -681,7 +688,18 @@ func (a *c05) checkInitNext() {
 				// the iteration as a whole qualifies: mark where it starts (the load of
 				// the list being ranged over), so that an empty list qualifies too
 				if h := c05LoopHeaderOf(in.Block()); h != nil && len(h.Instrs) > 0 {
-					qual[h.Instrs[0]] = true
+					// mark where control decides to run the loop (the block entering it
+					// from outside): also covers rotated loops whose guard skips an empty list
+					marked := false
+					for _, pr := range h.Preds {
+						if !h.Dominates(pr) && len(pr.Instrs) > 0 {
+							qual[pr.Instrs[len(pr.Instrs)-1]] = true
+							marked = true
+						}
+					}
+					if !marked {
+						qual[h.Instrs[0]] = true
+					}
 				} else if li, ok := ia.X.(ssa.Instruction); ok {
 					qual[li] = true
 				}
@@ -695,8 +713,10 @@ func (a *c05) checkInitNext() {
 		if qual[in] {
 			return 1, false
 		}
-		if in == a.sched.Blocks[0].Instrs[0] {
-			return 0, false // a (re)started scheduler begins with stale Next values
+		for root := range a.schedRoots {
+			if len(root.Blocks) > 0 && in == root.Blocks[0].Instrs[0] {
+				return 0, false // a (re)started scheduler begins with stale Next values
+			}
 		}
 		return g, false
 	}
